@@ -102,6 +102,8 @@ class Interp:
         self.vocab: Dict[str, int] = {}
 
     # -- helpers ---------------------------------------------------------------------------
+    _modconsts: Dict[Any, Any] = {}
+
     def fail(self, node, what):
         raise AnalysisError(f"abstract interpreter vocabulary exceeded: {what}: `{norm(node)[:90]}` (line {getattr(node, 'lineno', '?')})")
 
@@ -286,11 +288,23 @@ class Interp:
             self.block(st.body, env)
             return
         if isinstance(st, ast.Try):
-            # only try/finally without handlers is in the vocabulary
-            if st.handlers or st.orelse:
-                self.fail(st, "try/except")
+            # try/finally, and handlers that name the exception classes the model itself can raise (KeyError from a mapping
+            # lookup, the classes of explicit `raise` statements)
             try:
-                self.block(st.body, env)
+                try:
+                    self.block(st.body, env)
+                except ModelRaise as r:
+                    for h in st.handlers:
+                        names = [norm(x).split(".")[-1] for x in (h.type.elts if isinstance(h.type, ast.Tuple) else [h.type])] if h.type is not None else ["*"]
+                        if any(nm == "*" or nm in ("Exception", "BaseException") or r.name.split("(")[0] == nm or (nm == "LookupError" and r.name.split("(")[0] in ("KeyError", "IndexError")) for nm in names):
+                            if h.name:
+                                env[h.name] = Sym(r.name)
+                            self.block(h.body, env)
+                            break
+                    else:
+                        raise
+                else:
+                    self.block(st.orelse, env)
             finally:
                 self.block(st.finalbody, env)
             return
@@ -341,6 +355,14 @@ class Interp:
                 return env[e.id]
             if e.id in self.const_env:
                 return self.const_env[e.id]
+            # a module-level constant of the module the current function lives in (a dispatch table, a tuple of names)
+            fi_ = env.get("__func__")
+            mod_ = getattr(fi_, "module", None)
+            if mod_ is not None and e.id in getattr(mod_, "assigns", {}):
+                key_ = (mod_.name, e.id)
+                if key_ not in self._modconsts:
+                    self._modconsts[key_] = self.eval(mod_.assigns[e.id], {"__func__": fi_})
+                return self._modconsts[key_]
             self.fail(e, "unknown name")
         if isinstance(e, ast.Attribute):
             # module constant like cd.X
@@ -408,10 +430,26 @@ class Interp:
             return vs if isinstance(e, ast.List) else tuple(vs)
         if isinstance(e, ast.Set):
             return {self.eval(x, env) for x in e.elts}
+        if isinstance(e, ast.Dict) and all(k is not None for k in e.keys):
+            out_ = {}
+            for k_, v_ in zip(e.keys, e.values):
+                kk = self.eval(k_, env)
+                try:
+                    out_[kk] = self.eval(v_, env)
+                except TypeError:
+                    self.fail(e, "unhashable key in dict display")
+            return out_
         if isinstance(e, ast.Subscript):
             base = self.eval(e.value, env)
             k = self.eval(e.slice, env)
-            if isinstance(base, (dict, defaultdict)):
+            if isinstance(base, defaultdict):
+                return base[k]
+            if isinstance(base, dict):
+                try:
+                    if k not in base:
+                        raise ModelRaise("KeyError")
+                except TypeError:
+                    self.fail(e, "unhashable mapping key")
                 return base[k]
             if isinstance(base, (list, tuple)) and isinstance(k, int) and not isinstance(k, bool):
                 if not -len(base) <= k < len(base):
@@ -492,9 +530,12 @@ class Interp:
                 return None
             args = [self.eval(a, env) for a in e.args]
             ce = self.const_env.get(nm)
+            if nm in env and isinstance(env[nm], tuple) and env[nm] and env[nm][0] in ("class", "pyfunc"):
+                ce = env[nm]  # a class / function held in a local (`msg_cls, adding, pausing = TABLE[word]; msg_cls()`)
             if isinstance(ce, tuple) and ce and ce[0] == "class":
                 if self.construct is None:
-                    self.fail(e, f"construction of {nm}")
+                    # same default as for `cd.MDF_X()`: an object of that class
+                    return Obj(ce[1], ce[1].name, **{"msg_type": None})
                 return self.construct(ce[1], args, kwargs)
             if isinstance(ce, tuple) and ce and ce[0] == "pyfunc":
                 return ce[1](*args, **kwargs)
